@@ -5,7 +5,7 @@ import re
 from tools.vlib import *
 
 PID = "C37"
-READY = False
+READY = True
 MANIFEST = {
     "level_text": "Lean 4 theorems about an executable model of escape_control_characters and StructuredLogger::log "
                   "(src/daemon/StructuredLogger.cpp): for every byte string the escaped form has no byte below 0x20, no bare quote or "
@@ -294,7 +294,7 @@ def spec() -> Spec:
         extract=extract,
         nontrivial=nontrivial,
         post=post,
-        budget={"quick": 220, "thorough": 8000},
+        budget={"quick": 220, "thorough": 12000},
         search_budget={"quick": 600, "thorough": 12000},
         # the property fixes what a record must *decode to*, not its exact bytes (`\n` and `\u000A` are
         # equally good), so violations are decided by the monitors (Lean decoder, Python json); a bare
